@@ -9,6 +9,11 @@ method:
     S g       g = g.sign()                                 I g   g.inject(), node willing   R g   g.inject(), node refuses (RpcError)
     X g       g.send() (autofill+sign+inject), node willing   XR g  g.send(), node refuses
     K         the node bakes: mempool operations are included, c advances              D g   the client drops g
+    C1        build a group of 1 transaction through the real PyTezosClient (client.transaction(..)): the group lives on a
+              context of its own spawned by the client (B1/B2 groups all share one context)
+    M g h     build a group through the client's batch builder client.bulk(g, h) from the contents of held groups in ANY stage
+              (built, filled, autofilled, signed; g == h allowed; both orders); the members stay held
+    MD g h    the same, and the client drops the members afterwards (the usual "dry-run each, then send them as one batch")
 
 Invariant (the statement), judged BY THE NODE at every injection attempt (I, R, X, XR) on the bytes it receives, decoded by
 mc/ref/mgrops.py: counters == c+p+1, c+p+2, ... where c is the account counter on the node and p the account's contents
@@ -19,6 +24,9 @@ One class of injections gets NO VERDICT: a group whose counters were right, or c
 client last computed them, but another group of the account was accepted by the node in between ("stale group": c+p moved
 after the last fill/autofill that computed this group's counters).  Counters are signed into the group; no client that
 signs before injecting can satisfy the statement there, so a failure is not attributed to pytezos.
+
+The counter-cache model is kept per context (the shared one, and one per client-built group); a group that comes out of a
+client builder is modelled as a NEW group whose counters have never been computed, whatever its members went through.
 
 Successor states are produced by deep-copying the live world (node, context, groups share one memo) and applying one event;
 every newly discovered state is validated by REPLAYING its whole history from scratch on fresh objects (must give the same
@@ -32,13 +40,21 @@ from mc.engine.report import Result
 
 ID = 'C25'
 LEVEL = 'model_checking'
-RULE = ('BFS over all event histories (alphabet B1 B2 F A S I R X XR K D, at most MAXG held groups) up to the depth bound, per '
-        'configuration (source curve x initial account counter x sandboxed node); canonical state = (pending contents p, cached '
-        'context counter relative to c, multiset of held groups (size, stage, counters relative to c, how/when they were computed)). '
-        'evaluation = one injection attempt judged by the invariant; distinct_nontrivial = distinct (configuration, canonical '
-        'pre-state, event) injection attempts that are not the plain "fresh context, empty mempool, one held group" case')
-BOUND = {'quick': 'depth 7 with at most 2 held groups, 18 configurations (tz1,tz2,tz3 x c0 in {0,126,2^32-2} x sandboxed in {no,yes})',
-         'thorough': 'depth 9 with at most 2 held groups and depth 8 with at most 3 held groups, same 18 configurations'}
+RULE = ('BFS over all event histories (alphabet B1 B2 C1 M MD F A S I R X XR K D: groups built directly on one shared context, '
+        'built through PyTezosClient.transaction on a context of their own, or batched by PyTezosClient.bulk from every ordered pair '
+        '(g,h), g==h included, of held groups in any stage, members kept or dropped, at most MAXN=4 contents; at most MAXG held '
+        'groups) up to the depth bound, per configuration (source curve x initial account counter x sandboxed node); canonical '
+        'state = (pending contents p, cached counter of the shared context relative to c, multiset of held groups (size, stage, '
+        'counters relative to c, how/when they were computed, shared or own context and its cached counter)). evaluation = one '
+        'injection attempt judged by the invariant; distinct_nontrivial = distinct (configuration, canonical pre-state, event) '
+        'injection attempts that are not the plain "nothing cached, empty mempool, one held group of 1-2 contents whose counters '
+        'were never computed or come from the node counter" case')
+QUICK_BOUND = ('full alphabet (incl. the client builders C1 M MD): depth 6 with at most 2 held groups; alphabet without the client '
+               'builders: depth 7 with at most 2 held groups; each on 18 configurations (tz1,tz2,tz3 x c0 in {0,126,2^32-2} x '
+               'sandboxed in {no,yes})')
+THOROUGH_BOUND = ('full alphabet: depth 8 with at most 2 held groups and depth 7 with at most 3 held groups; alphabet without the '
+                  'client builders: depth 9 with at most 2 held groups and depth 8 with at most 3 held groups; same 18 configurations')
+BOUND = {'quick': QUICK_BOUND, 'thorough': THOROUGH_BOUND}
 ASSUMPTIONS = [
     'the node reports pending operations under `applied` (where ExecutionContext.get_counter_offset looks); newer Octez versions '
     'report `validated` instead - not judged here',
@@ -55,6 +71,8 @@ LEVEL_TEXT = ('model checking of the finite-depth reachable state space of the r
 DEST = 'tz1gjaF81ZRRvdzjobyfVNsAeSC6PScjfQwN'
 CURVES = {'tz1': b'ed', 'tz2': b'sp', 'tz3': b'p2'}
 INJECT_EVENTS = ('I', 'R', 'X', 'XR')
+MAXN = 4  # a batch built by client.bulk has at most this many contents
+SHARED = 0  # id of the context all B-built groups share; client-built groups get ids 1, 2, ...
 _keys = {}
 
 
@@ -68,8 +86,9 @@ def key_of(curve):
 class Slot:
     """A group the client holds + harness bookkeeping about how its counters were computed (never shown to pytezos)."""
 
-    def __init__(self, g, n):
+    def __init__(self, g, n, ctx=SHARED):
         self.g, self.n = g, n
+        self.ctx = ctx        # which context (counter cache) the group lives on: SHARED or the id of its own one
         self.call = None      # 'fill' | 'autofill': the call that last computed the counters
         self.basis = None     # 'node counter' | 'cached counter' | 'own counters'
         self.sum_at = None    # c+p on the node when they were computed
@@ -78,6 +97,7 @@ class Slot:
 
 class World:
     def __init__(self, cfg):
+        from pytezos.client import PyTezosClient
         from pytezos.context.impl import ExecutionContext
         from pytezos.rpc.shell import ShellQuery
         from mc.simnode import SimNode, disable_query_docstrings
@@ -87,9 +107,11 @@ class World:
         self.pkh = self.key.public_key_hash()
         self.node = SimNode(counters={self.pkh: cfg['c0']}, sandboxed=cfg['sandboxed'], check_counters=True)
         self.ctx = ExecutionContext(shell=ShellQuery(node=self.node), key=self.key)
+        self.client = PyTezosClient(context=self.ctx)  # its builders spawn a new context (same shell, same key) per group
         self.held = {}          # gid -> Slot
         self.next_gid = 1
-        self.model_cache = None  # the counter-cache model: what ExecutionContext.counter is believed to be
+        self.next_ctx = 1
+        self.model_cache = {SHARED: None}  # the counter-cache model: what each ExecutionContext.counter is believed to be
         self.model_ok = True
 
     # -- observation ------------------------------------------------------------------------------
@@ -112,8 +134,10 @@ class World:
         sl = self.held[gid]
         c, s = self.c(), self.c() + self.p()
         cs = self.counters(sl.g)
+        own = None if sl.ctx == SHARED else sl.g.context.counter
         return (sl.n, self.stage(sl.g), None if cs is None else tuple(x - c for x in cs), sl.call, sl.basis,
-                None if sl.sum_at is None else s - sl.sum_at)
+                None if sl.sum_at is None else s - sl.sum_at, 'shared' if sl.ctx == SHARED else 'own',
+                None if own is None else own - c)
 
     def canon(self):
         cache = self.ctx.counter
@@ -122,8 +146,18 @@ class World:
 
     def enabled(self):
         evs = []
-        if len(self.held) < self.cfg['maxg']:
+        room = len(self.held) < self.cfg['maxg']
+        client = self.cfg.get('alphabet', 'client') == 'client'
+        if room:
             evs += [['B', 1], ['B', 2]]
+            if client:
+                evs.append(['C', 1])
+        for gi, si in self.held.items():
+            for gj, sj in self.held.items():
+                if client and si.n + sj.n <= MAXN:
+                    if room:
+                        evs.append(['M', gi, gj])
+                    evs.append(['MD', gi, gj])
         for gid, sl in self.held.items():
             evs += [['F', gid], ['A', gid]]
             if sl.g.branch:
@@ -140,10 +174,11 @@ class World:
         Returns (predicted counters, basis) and updates the modelled cache."""
         p = self.p()
         if sl.predicted is None:
-            basis = 'node counter' if self.model_cache is None else 'cached counter'
-            base = self.c() if self.model_cache is None else self.model_cache
+            cache = self.model_cache[sl.ctx]
+            basis = 'node counter' if cache is None else 'cached counter'
+            base = self.c() if cache is None else cache
             pred = [base + 1 + i for i in range(sl.n)]
-            self.model_cache = base + sl.n
+            self.model_cache[sl.ctx] = base + sl.n
             if call == 'autofill':
                 pred = [x + p for x in pred]
             return pred, basis
@@ -157,8 +192,26 @@ class World:
         sl.predicted = pred
         if basis is not None:
             sl.call, sl.basis, sl.sum_at = call, basis, self.c() + self.p()
-        if self.counters(g_new) != pred or self.ctx.counter != self.model_cache:
+        if self.counters(g_new) != pred or not self._caches_as_modelled(sl):
             self.model_ok = False
+
+    def _caches_as_modelled(self, sl):
+        return self.ctx.counter == self.model_cache[SHARED] and sl.g.context.counter == self.model_cache[sl.ctx]
+
+    def _forget_contexts(self):
+        live = {sl.ctx for sl in self.held.values()} | {SHARED}
+        for k in [k for k in self.model_cache if k not in live]:
+            del self.model_cache[k]
+
+    def _own(self, g, n):
+        """Hold a group that came out of a client builder: it lives on a context of its own, nothing computed yet."""
+        sl = Slot(g, n, self.next_ctx)
+        self.model_cache[sl.ctx] = None
+        self.next_ctx += 1
+        self.held[self.next_gid] = sl
+        self.next_gid += 1
+        if g.context is self.ctx or g.context.counter is not None or self.counters(g) is not None:
+            self.model_ok = False  # explains, never judges: the injection of this group is what gets judged
 
     # -- events ---------------------------------------------------------------------------------------
     def apply(self, ev):
@@ -173,6 +226,21 @@ class World:
             self.held[self.next_gid] = Slot(g, ev[1])
             self.next_gid += 1
             return None
+        if kind == 'C':
+            g = self.client.transaction(destination=DEST, amount=1)
+            for _ in range(ev[1] - 1):
+                g = g.transaction(destination=DEST, amount=1)
+            self._own(g, ev[1])
+            return None
+        if kind in ('M', 'MD'):
+            members = [self.held[ev[1]], self.held[ev[2]]]
+            g = self.client.bulk(*[m.g for m in members])
+            if kind == 'MD':
+                for gid in set(ev[1:]):
+                    del self.held[gid]
+            self._own(g, sum(m.n for m in members))
+            self._forget_contexts()
+            return None
         if kind == 'K':
             self.node.bake()
             return None
@@ -180,6 +248,7 @@ class World:
         sl = self.held[gid]
         if kind == 'D':
             del self.held[gid]
+            self._forget_contexts()
             return None
         if kind == 'F':
             self._assign(sl, 'fill', sl.g.fill())
@@ -194,12 +263,12 @@ class World:
         refuse = kind in ('R', 'XR')
         self.node.reject_next = refuse
         n_before = len(self.node.injections)
-        tmp = Slot(sl.g, sl.n)
+        tmp = Slot(sl.g, sl.n, sl.ctx)
         tmp.call, tmp.basis, tmp.sum_at, tmp.predicted = sl.call, sl.basis, sl.sum_at, sl.predicted
         err = None
         try:
             if kind in ('I', 'R'):
-                self.model_cache = None  # inject() resets the context first
+                self.model_cache[sl.ctx] = None  # inject() resets the context of the group first
                 sl.g.inject()
             else:
                 # send() = autofill().sign().inject() on a temporary group; the held one is not modified
@@ -207,14 +276,14 @@ class World:
                 tmp.predicted = pred
                 if basis is not None:
                     tmp.call, tmp.basis, tmp.sum_at = 'autofill', basis, self.c() + self.p()
-                self.model_cache = None
+                self.model_cache[sl.ctx] = None
                 sl.g.send()
         except RpcError as e:
             err = 'RpcError'
         except Exception as e:  # noqa
             err = f'{type(e).__name__}: {e}'[:200]
         self.node.reject_next = False
-        if self.ctx.counter != self.model_cache:
+        if not self._caches_as_modelled(sl):
             self.model_ok = False
         logs = self.node.injections[n_before:]
         j = {'event': kind, 'error': err, 'attempts': len(logs), 'call': tmp.call, 'basis': tmp.basis,
@@ -225,6 +294,7 @@ class World:
                      stale=(tmp.sum_at is not None and lg['c'] + lg['p'] != tmp.sum_at))
             if lg['accepted']:
                 del self.held[gid]
+                self._forget_contexts()
         return j
 
 
@@ -259,6 +329,12 @@ def render(history):
         if ev[0] == 'B':
             gid += 1
             out.append(f'build g{gid}({ev[1]})')
+        elif ev[0] == 'C':
+            gid += 1
+            out.append(f'g{gid} = client.transaction(..)' + '.transaction(..)' * (ev[1] - 1))
+        elif ev[0] in ('M', 'MD'):
+            gid += 1
+            out.append(f'g{gid} = client.bulk(g{ev[1]}, g{ev[2]})' + (' and drop the members' if ev[0] == 'MD' else ''))
         elif ev[0] == 'K':
             out.append('bake')
         else:
@@ -293,24 +369,61 @@ def detail(cfg, history, j):
 
 def nontrivial(pre_canon):
     p, cache, slots = pre_canon
-    return p > 0 or len(slots) > 1 or any(s[4] != 'node counter' for s in slots)
+    return (p > 0 or cache is not None or len(slots) > 1
+            or any(s[4] not in (None, 'node counter') or s[0] > 2 or s[7] is not None for s in slots))
 
 
 CONFIGS = [{'curve': cv, 'c0': c0, 'sandboxed': sb} for cv in CURVES for c0 in (0, 126, 2 ** 32 - 2) for sb in (False, True)]
 
 
+LANES = 16
+# measured transitions per shard (thousands), used only to spread the shards evenly over the runner's static lanes
+WEIGHT = {('client', 2, 6): 15, ('base', 2, 7): 7, ('client', 3, 7): 183, ('client', 2, 8): 148, ('base', 3, 8): 42, ('base', 2, 9): 47}
+
+
+def balanced(specs):
+    """Order the shard list so that the static lanes shards[k::LANES] carry about the same work (greedy, heaviest first;
+    lane k < len % LANES holds one shard more).  The set of shards does not depend on the order."""
+    def wt(sp):
+        return WEIGHT[(sp['alphabet'], sp['maxg'], sp['depth'])]
+    q, rem = divmod(len(specs), LANES)
+    cap = [q + 1 if k < rem else q for k in range(LANES)]
+    lanes = [[] for _ in range(LANES)]
+    load = [0] * LANES
+    for i, sp in sorted(enumerate(specs), key=lambda t: (-wt(t[1]), t[0])):
+        k = min((k for k in range(LANES) if len(lanes[k]) < cap[k]), key=lambda k: (load[k], k))
+        lanes[k].append(sp)
+        load[k] += wt(sp)
+    improved = True
+    while improved:  # swap two shards between the heaviest lane and another one while that lowers the larger of the two loads
+        improved = False
+        a = max(range(LANES), key=lambda k: (load[k], -k))
+        for b in range(LANES):
+            for i in range(len(lanes[a])):
+                for j in range(len(lanes[b])):
+                    d = wt(lanes[a][i]) - wt(lanes[b][j])
+                    if b != a and not improved and d > 0 and load[b] + d < load[a]:
+                        lanes[a][i], lanes[b][j] = lanes[b][j], lanes[a][i]
+                        load[a] -= d
+                        load[b] += d
+                        improved = True
+    return [lanes[k][row] for row in range(q + 1) for k in range(LANES) if row < len(lanes[k])]
+
+
 def shards(tier, seed):
+    def fam(alphabet, maxg, depth):
+        return [dict(cfg, alphabet=alphabet, maxg=maxg, depth=depth) for cfg in CONFIGS]
     if tier == 'quick':
-        return [dict(cfg, maxg=2, depth=7) for cfg in CONFIGS]
-    return [dict(cfg, maxg=3, depth=8) for cfg in CONFIGS] + [dict(cfg, maxg=2, depth=9) for cfg in CONFIGS]
+        return balanced(fam('client', 2, 6) + fam('base', 2, 7))
+    return balanced(fam('client', 3, 7) + fam('client', 2, 8) + fam('base', 3, 8) + fam('base', 2, 9))
 
 
 def cfg_key(cfg):
-    return (cfg['curve'], cfg['c0'], cfg['sandboxed'], cfg['maxg'])
+    return (cfg['curve'], cfg['c0'], cfg['sandboxed'], cfg['maxg'], cfg.get('alphabet', 'client'))
 
 
 def run_shard(spec, tier):
-    cfg = {k: spec[k] for k in ('curve', 'c0', 'sandboxed', 'maxg')}
+    cfg = {k: spec[k] for k in ('curve', 'c0', 'sandboxed', 'maxg', 'alphabet')}
     depth = spec['depth']
     ck = cfg_key(cfg)
     r = Result()
@@ -334,14 +447,15 @@ def run_shard(spec, tier):
                     case = {'config': cfg, 'history': h2}
                     last_case = case
                     if nontrivial(pre):
-                        r.nt((ck, pre, ev[0], w.slot_canon(ev[1])))
+                        # the same attempt reached under another alphabet / held-groups bound is the same case
+                        r.nt((ck[:3], pre, ev[0], w.slot_canon(ev[1])))
                     label, desc, nov = judge(j)
                     r.out(label)
                     if nov:
                         r.no_verdict += 1
                     if desc is not None:
                         r.viol(desc, case, detail(cfg, h2, j))
-                    if not first_sampled and ck == cfg_key(dict(CONFIGS[0], maxg=cfg['maxg'])):
+                    if not first_sampled and ck == cfg_key(dict(CONFIGS[0], maxg=cfg['maxg'], alphabet=cfg['alphabet'])):
                         r.sample(case)
                         first_sampled = True
                 if not w2.model_ok:
